@@ -444,27 +444,31 @@ int32_t tls13GenerateKeyForGroup(ssl_t *ssl, uint16_t namedGroup)
             goto out_internal_error;
         }
 
-        /* Ignore whatever DH params the user may have loaded for TLS 1.2. */
-        if (ssl->keys->dhParams.size != 0)
+        /* The group parameters are needed for the key generation only.
+           Not in ssl->keys: the key material is shared between sessions
+           (and threads) and is not ours to modify; whatever DH params the
+           user may have loaded there for TLS 1.2 stay as they are. */
         {
-            psPkcs3ClearDhParams(&ssl->keys->dhParams);
-        }
+            psDhParams_t params;
 
-        rc = tls13LoadDhParams(ssl,
-                namedGroup,
-                &ssl->keys->dhParams);
-        if (rc < 0)
-        {
-            return rc;
-        }
+            Memset(&params, 0x0, sizeof(params));
+            rc = tls13LoadDhParams(ssl,
+                    namedGroup,
+                    &params);
+            if (rc < 0)
+            {
+                return rc;
+            }
 
-        rc = psDhGenKeyParams(ssl->hsPool,
-                &ssl->keys->dhParams,
-                &ssl->sec.tls13KeyAgreeKeys[i]->key.dh,
-                NULL);
-        if (rc < 0)
-        {
-            goto out_internal_error;
+            rc = psDhGenKeyParams(ssl->hsPool,
+                    &params,
+                    &ssl->sec.tls13KeyAgreeKeys[i]->key.dh,
+                    NULL);
+            psPkcs3ClearDhParams(&params);
+            if (rc < 0)
+            {
+                goto out_internal_error;
+            }
         }
 # endif /* !USE_DH */
     }
@@ -846,17 +850,28 @@ int32_t tls13GenSharedSecretDh(ssl_t *ssl,
     psSize_t secretLen;
     psSize_t padLen;
     int32_t rc;
+    psDhParams_t params;
 
     psAssert(privKey->type == PS_DH);
     psAssert(ssl->sec.dhKeyPub != NULL);
 
+    /* The parameters of the negotiated group (see tls13GenerateKeyForGroup
+       on why they are not kept in ssl->keys). */
+    Memset(&params, 0x0, sizeof(params));
+    rc = tls13LoadDhParams(ssl, ssl->tls13NegotiatedGroup, &params);
+    if (rc < 0)
+    {
+        goto out_internal_error;
+    }
+
     /* psDhGenSharedSecret wants the params as byte arrays.*/
     rc = psDhExportParameters(ssl->hsPool,
-            &ssl->keys->dhParams,
+            &params,
             &ssl->sec.dhP,
             &ssl->sec.dhPLen,
             &ssl->sec.dhG,
             &ssl->sec.dhGLen);
+    psPkcs3ClearDhParams(&params);
     if (rc < 0)
     {
         psTraceErrr("psDhExportParameters failed\n");
